@@ -313,6 +313,8 @@ def evaluate(ctx: Ctx, cases, driver: Driver, stage_c=True, label=""):
     lines, idx = [], []
     for ci, c in enumerate(cases):
         for li, l in enumerate(c.lines):
+            if l.startswith("#"):
+                continue          # a line the model does not cover: property-on-implementation (D) only
             lines.append(l); idx.append((ci, li))
     model_flat = driver.ask(lines) if stage_c else [None] * len(lines)
     model_out = [[None] * len(c.lines) for c in cases]
@@ -346,7 +348,7 @@ def evaluate(ctx: Ctx, cases, driver: Driver, stage_c=True, label=""):
                 st["c_compared"] += 1
                 if m_s != i_s:
                     ctx.failures.append(Failure("C", cd, li, "model and implementation disagree", expected=e_s, got=i_s, model=m_s))
-            elif stage_c and m_s is None:
+            elif stage_c and m_s is None and not c.lines[li].startswith("#"):
                 ctx.failures.append(Failure("C", cd, li, "model driver gave no answer (crash or not built)", expected=e_s, got=i_s))
         if oracle:
             msg = oracle(cd, io)
